@@ -223,7 +223,7 @@ CONFIG.rule = ("op lines generated from one PRNG (VERIF_SEED): random TLV trees 
                "length-field +-1/+-256, bit flips, random bytes, two-byte header prefixes (all 65536 in "
                "thorough, 1/16 stride in quick) through KSI_TLV_parseBlob(+getNestedList), "
                "KSI_FTLV_memRead(N), KSI_FTLV_fileRead/socketRead. A case is distinct by its op line; "
-               "non-trivial = not rejected by the very first length/argument check.")
+               "non-trivial = not rejected by the very first length/argument check. Element codec after changes: a value set / removed at the top and two levels down (the middle element's encoding crossing the 255-octet form boundary, a sibling behind it), then serialize, detach, serialize again (must be unchanged); elements that must be refused (serd) and partial serialization (elserp).")
 CONFIG.trusted_base = [
     "Lean 4.33.0 kernel; axioms propext, Classical.choice, Quot.sound only (audited per theorem each run)",
     "model KsiVerif.Model.Tlv is hand-written from tlv.c/fast_tlv.c/tlv_element.c; tied to the code by the "
